@@ -82,11 +82,27 @@ deriving Repr, DecidableEq
 inductive Kind | leaf | intermediate | root
 deriving Repr, DecidableEq
 
+def trimDot (s : String) : String := if s.endsWith "." then (s.dropEnd 1).toString else s
+
+/-- `dnsNameForConstraints(opts.DNSName)`: the DNS name that permitted DNS domains are compared with — the
+    requested host without its trailing dot; none when no host was requested or the host is an IP address
+    (plain or in brackets, `hostIsIP`), exactly the reading `VerifyHostname` makes of the same string.
+    (Before the repair the raw `opts.DNSName` was compared, whatever it was.) -/
+def constraintName (o : Opts) : Option String :=
+  if o.dnsName.length == 0 || o.hostIsIP then none else some (trimDot o.dnsName)
+
+/-- the permitted-DNS-domains test of `isValid`: nothing to test without a DNS name or without constraints;
+    otherwise one permitted domain must match the name -/
+def permittedOK (c : Cert) (o : Opts) : Bool :=
+  match constraintName o with
+  | none => true
+  | some name => c.permitted.isEmpty || c.permitted.any (matchNameConstraint name)
+
 /-- `isValid(certType, currentChain, opts)`; `chain` is the current chain, leaf first -/
 def isValid (c : Cert) (kind : Kind) (chain : List Cert) (o : Opts) : Option Reason :=
   if (match chain.getLast? with | some child => child.iss != c.subj | none => false) then some .nameMismatch
   else if o.now < c.nb || o.now > c.na then some .expired
-  else if !c.permitted.isEmpty && !(c.permitted.any (matchNameConstraint o.dnsName)) then some .notAuthorizedForName
+  else if !permittedOK c o then some .notAuthorizedForName
   else if kind == .intermediate && (!c.bcValid || !c.isCA) then some .notAuthorizedToSign
   else if c.bcValid && c.maxPathLen >= 0 && (Int.ofNat chain.length - 1 > c.maxPathLen) then some .tooManyIntermediates
   else none
@@ -114,8 +130,6 @@ def buildChains (roots inters : List Cert) (o : Opts) : Nat → Nat → List Cer
       (findVerifiedParents inters c).foldl step (viaRoots, steps)
 
 def lowerASCII (s : String) : String := s.map fun c => if 'A' ≤ c ∧ c ≤ 'Z' then Char.ofNat (c.toNat + 32) else c
-
-def trimDot (s : String) : String := if s.endsWith "." then (s.dropEnd 1).toString else s
 
 /-- `matchHostnames(pattern, host)` -/
 def matchHostnames (pattern host : String) : Bool :=
